@@ -18,7 +18,7 @@ def run(ctx, rep):
         crate = ctx.crate(cfg)
         c15.check_value_ord(crate, rep, cfg)
         check_orduse(crate, rep, cfg)
-        rpanic.check(crate, rep, "R-PANIC.coll", ("filters.rs",), cfg, 14)
+        rpanic.check(crate, rep, "R-PANIC.coll", ("filters.rs",), cfg, 10)
 
 
 def check_orduse(crate, rep, cfg):
@@ -73,8 +73,8 @@ def check_orduse(crate, rep, cfg):
     rep.add("C16.ORDUSE", "C16.ORDUSE:ensure_comparable:partial_cmp", uses, ec.where(0), "ensure_comparable decides with Value::partial_cmp (the relation behind `<`)" + ("" if uses else " — VIOLATED"))
     uq = crate.one("filters::unique")
     bt = [callee_def(t) for bb, t in uq.calls() if "BTreeSet" in callee_def(t) and "value::Value" in str(t["f"].get("targs"))]
-    ok = any(x.endswith("::insert") for x in bt) and any(x.endswith("::contains") for x in bt)
-    rep.add("C16.ORDUSE", "C16.ORDUSE:unique:btreeset", ok, uq.where(0), "unique dedups through BTreeSet<Value>::contains/insert (equality classes of Ord::cmp == classes of `==`, C15.ORD)"
+    ok = any(x.endswith("::insert") for x in bt)
+    rep.add("C16.ORDUSE", "C16.ORDUSE:unique:btreeset", ok, uq.where(0), "unique dedups through BTreeSet<Value>::insert (with or without a contains first) (equality classes of Ord::cmp == classes of `==`, C15.ORD)"
             + ("" if ok else " — VIOLATED: %s" % bt))
     # join / split are the standard library's inverse pair: where separators go is decided by `[String]::join` and `str::split`, with
     # the separator taken from the keyword argument, over every element in order (no hand-written separator logic to get wrong)
